@@ -277,8 +277,20 @@ func c12bJudge(t stats.TB, part string, c *evmgen.Case, o *c12bOutcome) *c12bRep
 	} else {
 		rp.labels = append(rp.labels, "tx-ok")
 	}
-	if len(sigParts) > 6 {
-		sigParts = sigParts[:6]
+	// recursion repeats the same failed call many times: keep the distinct ones, in order
+	{
+		seen := map[string]bool{}
+		var uniq []string
+		for _, sp := range sigParts {
+			if !seen[sp] {
+				seen[sp] = true
+				uniq = append(uniq, sp)
+			}
+		}
+		sigParts = uniq
+	}
+	if len(sigParts) > 8 {
+		sigParts = sigParts[:8]
 	}
 	rp.sig = append(sigParts, fmt.Sprintf("failed=%v", o.failed))
 	return rp
